@@ -61,6 +61,39 @@ func (a *Analysis) stackInvariant(res *report.RuleResult) (growOK bool) {
 	}
 	writes := 0
 	var grow *ast.FuncDecl
+	// functions reachable from Lex (they run while tokens are produced)
+	perToken := map[*ast.FuncDecl]bool{}
+	{
+		decls := map[*types.Func]*ast.FuncDecl{}
+		for _, fd := range load.FuncDecls(m.Pkg) {
+			if o, ok := info.Defs[fd.Name].(*types.Func); ok {
+				decls[o] = fd
+			}
+		}
+		var visit func(fd *ast.FuncDecl)
+		visit = func(fd *ast.FuncDecl) {
+			if fd == nil || perToken[fd] {
+				return
+			}
+			perToken[fd] = true
+			ast.Inspect(fd.Body, func(n ast.Node) bool {
+				if c, ok := n.(*ast.CallExpr); ok {
+					switch f := unparen(c.Fun).(type) {
+					case *ast.SelectorExpr:
+						if o, ok := info.Uses[f.Sel].(*types.Func); ok {
+							visit(decls[o])
+						}
+					case *ast.Ident:
+						if o, ok := info.Uses[f].(*types.Func); ok {
+							visit(decls[o])
+						}
+					}
+				}
+				return true
+			})
+		}
+		visit(m.Lex)
+	}
 	for _, fd := range load.FuncDecls(m.Pkg) {
 		fname := fd.Name.Name
 		if fname == "growCallStack" && fd.Recv != nil {
@@ -115,6 +148,15 @@ func (a *Analysis) stackInvariant(res *report.RuleResult) (growOK bool) {
 						if len(x.Lhs) == len(x.Rhs) && x.Tok == token.ASSIGN {
 							if c, isCall := unparen(x.Rhs[i]).(*ast.CallExpr); isCall {
 								if id, isId := c.Fun.(*ast.Ident); isId && id.Name == "append" && len(c.Args) >= 1 && fieldOf(c.Args[0]) == stackF && !c.Ellipsis.IsValid() {
+									ok = true
+								}
+							}
+						}
+						if !ok && len(x.Lhs) == len(x.Rhs) && x.Tok == token.ASSIGN && !perToken[fd] {
+							// a fresh make in code that runs before scanning starts (the constructor and what only it
+							// calls): top is still zero there
+							if c, isCall := unparen(x.Rhs[i]).(*ast.CallExpr); isCall {
+								if id, isId := c.Fun.(*ast.Ident); isId && id.Name == "make" {
 									ok = true
 								}
 							}
